@@ -387,3 +387,47 @@ func VerifHarness_C03_ScanOddBoost() {
 		verifReach("nonempty")
 	}
 }
+
+// words separated by punctuation only (no blank): they stay separate words on both sides
+func VerifHarness_C03_ScanPunct() {
+	mk := func(cmd, d string) Command {
+		c := Command{Command: cmd, Description: d}
+		vFill(&c)
+		return c
+	}
+	db := &Database{Commands: []Command{mk("aa", "copy,paste /etc/passwd user@host"), mk("bb", "plain text"), mk("paste", "cc")}}
+	db.BuildUniversalIndex()
+	w := []string{"paste", "passwd", "host", "copy", "etc"}[verifIntRange("word", 0, 4)]
+	res := db.SearchUniversal(w, SearchOptions{Limit: 5, AllPlatforms: true})
+	found := false
+	for _, r := range res {
+		if r.Command == &db.Commands[0] {
+			found = true
+		}
+	}
+	verifAssert(found, "C03: a command containing the query word is returned (words separated by punctuation are words)")
+	c03Compare(db, res, c03ReferenceTok(db, []string{w}), "scan, punctuation-separated words")
+	verifReach("compared")
+	verifReach("nonempty")
+}
+
+// c03ReferenceTok: the reference scan with fields cut at every character that is not an ASCII
+// letter, digit, '-', '.', or '_' (the documented tokenisation) instead of at single blanks.
+func c03ReferenceTok(db *Database, terms []string) map[int]float64 {
+	saved := make([]Command, len(db.Commands))
+	copy(saved, db.Commands)
+	clean := func(s string) string {
+		out := []byte(strings.ToLower(s))
+		for i, b := range out {
+			if !(b >= 'a' && b <= 'z' || b >= '0' && b <= '9' || b == '-' || b == '.' || b == '_') {
+				out[i] = ' '
+			}
+		}
+		return strings.Join(strings.Fields(string(out)), " ")
+	}
+	tmp := &Database{Commands: make([]Command, len(db.Commands)), uIndex: db.uIndex}
+	for i, c := range db.Commands {
+		tmp.Commands[i] = Command{Command: clean(c.Command), Description: clean(c.Description)}
+	}
+	return c03Reference(tmp, terms, func(string) float64 { return 1.0 })
+}
